@@ -39,7 +39,10 @@ def render(v) -> str:
 DEFAULT = "<default>"       # what every parameter of a recording callable defaults to (never a value of the domain)
 
 
-def recording_callable(label: str, nout: int, nyield: int):
+LITERALS = {"None": None, "0": 0, "''": "", "False": False}
+
+
+def recording_callable(label: str, nout: int, yvals: list[str]):
     """A callable named `label` that records what it is called with and whose value(s) spell that call out.
 
     Every parameter has the distinctive default DEFAULT, so the observed call lists exactly what was passed: an
@@ -60,7 +63,7 @@ def recording_callable(label: str, nout: int, nyield: int):
         L.CALLS.append([label, term])
         if nout == 1:
             return ("V", term)
-        return (("V", f"{term}#{i}") for i in range(nyield))
+        return (("V", f"{term}#{i}") if y == "t" else L.LITERALS[y] for i, y in enumerate(yvals))
 
     f.__name__ = f.__qualname__ = label
     return f
@@ -108,7 +111,7 @@ def observe(case: dict) -> dict:
         label = f"n{j}"
         inputs = [nodes[p - 1] if case["nodes"][p - 1]["nout"] == 1 else nodes[p - 1].get_output(nodes[p - 1].outputs[o])
                   for p, o in nd["inputs"]]
-        payload = Payload(recording_callable(label, nd["nout"], nd["yields"]), [item(a) for a in nd["args"]],
+        payload = Payload(recording_callable(label, nd["nout"], list(nd["yvals"])), [item(a) for a in nd["args"]],
                           {k: item(v) for k, v in nd["kwargs"]})
         node = Node(payload, inputs, num_outputs=nd["nout"])
         nodes.append(node)
